@@ -223,6 +223,9 @@ func runC05(ctx *core.Ctx) {
 	// ------------------------------------------------------------ 0. tracker and plain ExtendService
 	genTrackerAndExtend(ctx)
 
+	// ------------------------------------------------------------ 0b. deepClone on the real heap (c05clone.go)
+	genClone(ctx)
+
 	// ------------------------------------------------------------ 1. exhaustive small scope
 	// two files (main M, proj/o.yaml O) × names {a,b}; every node: absent | plain | extends a/b same file |
 	// extends a/b in the other file | extends a/b in its own file through the `file:` form      (8^4 = 4096 trees)
@@ -297,6 +300,16 @@ func runC05(ctx *core.Ctx) {
 
 	// ------------------------------------------------------------ 4. oracles on the real loader
 	genOracles(ctx)
+
+	// ------------------------------------------------------------ 5. which model branches were reached (c05Stats)
+	ctx.Wait()
+	c05StatsMu.Lock()
+	for k, n := range c05Stats {
+		for i := 0; i < n; i++ {
+			ctx.Count(k)
+		}
+	}
+	c05StatsMu.Unlock()
 }
 
 func genTrackerAndExtend(ctx *core.Ctx) {
